@@ -186,6 +186,36 @@ func init() {
 		cfg("restart", 0), cfg("restart", 1), cfg("restart", 1, "newPrice", 1), cfg("restart", 0, "newVersion", 1, "newValidators", 1), cfg("restart", 1, "newVersion", 1, "newValidators", 1),
 	}, Bounds: "genesis block + one block, with or without a restart in between; emission, price reserves, last reward: unbounded integers"})
 
+	// ---------------------------------------------------------- C10 commit crash (application-level writes)
+	{
+		var cs []map[string]int64
+		for k := 0; k <= 8; k++ {
+			cs = append(cs, cfg("crashAfter", k))
+			cs = append(cs, cfg("crashAfter", k, "newPrice", 1))
+		}
+		add("C10", append([]string{
+			"application-level write order only: IAVL's own crash atomicity (SaveVersion, re-save of an existing version with an identical hash), LevelDB durability and Tendermint's handshake are by contract, not encoded; every app-DB write is individually atomic and durable in issue order",
+			"the crash point is enumerated (after the k-th app-DB write of Blockchain.Commit, k = 0..8, which covers the whole sequence); emission, price and the previous block's values are symbolic",
+			"recovery contract checked: Info() never reports a mixed (height, hash) pair; a reported height carries its own emission/price; a node that reports h-1 still has the h-1 emission to replay from",
+		}, commonAssumptions...), HSpec{Pkg: minterPkg, Func: "VerifHarness_C10_CommitCrash", Tier: "quick", Configs: cs,
+			Bounds: "one Commit of block h over a fully committed block h-1; crash after each of the 0..8 app-DB writes"})
+	}
+
+	// ---------------------------------------------------------- C24 events store
+	{
+		var cs []map[string]int64
+		for prior := 0; prior <= 2; prior++ {
+			for restart := 0; restart <= 1; restart++ {
+				cs = append(cs, cfg("prior", prior, "restart", restart))
+			}
+		}
+		add("C24", append([]string{
+			"events store over the KVModel; tmjson as a field box (faithful on exported fields); addresses and public keys are concrete (chosen so that some are reused from an earlier batch), amounts and the jail height are symbolic",
+			"compaction tables with at most 3 entries before the batch; the uint16 id space of savePubKey (65535 keys) is outside the bound",
+		}, commonAssumptions...), HSpec{Pkg: "coreV2/events", Func: "VerifHarness_C24_RoundTrip", Tier: "quick", Configs: cs,
+			Bounds: "a batch with one event of each of 10 kinds committed after 0..2 earlier batches, with or without a store restart; reloaded by the same and by a fresh store"})
+	}
+
 	// ---------------------------------------------------------- C20
 	c20 := func(fn string, t string, vals ...int) HSpec {
 		var cs []map[string]int64
